@@ -12,7 +12,7 @@ pub const META_C15: Meta = Meta {
     assumptions: &["identical device scripts give identical answers (pure function of call index and signal)"],
     quick_cases: 40000,
     thorough_cases: 500000,
-    floor: 300,
+    floor: 3000,
 };
 
 #[derive(Clone, Debug, PartialEq, Eq)]
